@@ -25,7 +25,11 @@ RULE = (
     "product of scipy expm of gamma(a_half)/beta(a_half) da with literature beta's, and = eko singlet.eko_iterate on the "
     "geometric lists; photon row/column = identity; Sigma_Delta entry = scalar mid-point product of ns+; valence "
     "likewise (and = singlet.eko_iterate for generic 2x2); non_singlet_qed = product of the QCD exact NS kernels of the steps = one-step QCD exact kernel = exp of the "
-    "quadrature of gamma/beta. E (end to end): fixed-flavour solves on 2-3 point grids, orders (1-3 (quick 1-2), 1-2), "
+    "quadrature of gamma/beta. One draw in eight is a 'real' case: the ekore anomalous dimensions themselves (orders (1-4, "
+    "1-2), nf 3-6, both N3LO parametrisations and variations, N on the Mellin inversion contour for x in [1e-3, 0.9], "
+    "|N| from ~1) are fed to the QED singlet / valence / non-singlet dispatchers at a_em = 0 on 1-3 steps and compared "
+    "channel by channel with the QCD kernels fed with the QCD anomalous dimensions ((g,Sigma) = singlet.eko_iterate, "
+    "Sigma_Delta = ns+, V = nsV, V_Delta = ns-, ns+-u/d = ns+-, photon decoupled). E (end to end): fixed-flavour solves on 2-3 point grids, orders (1-3 (quick 1-2), 1-2), "
     "alpha_em fixed or running, alpha_em in {1e-4,1e-6,1e-8} at 8 iterations and alpha_em=1e-8 at 8,16,32 (thorough: "
     "10,20,...,160) iterations against the QCD solve (iterate-exact, 8 x the largest iteration count) on the 13 parton "
     "channels: the alpha_em differences must be linear in alpha_em and bounded by c1 alpha_em, the distance to QCD must "
@@ -39,6 +43,8 @@ ASSUMPTIONS = [
     "kernel tolerance 1e-12 x cond(V) x steps relative (the repository exponentiates through numpy eig; V = eigenvectors of "
     "the first step generator, cases with cond(V) > 1e4 are outside the domain of that closed form and discarded, "
     "counted); non-singlet 1e-10 relative (closed-form evolution integrals with cubic roots at N3LO)",
+    "'real' cases use ekore's QCD entry points (gamma_singlet, gamma_ns) as the reference for its QED grids: a defect "
+    "common to both is C25-C30's business, a difference between them is this property's; tolerance 10 x the kernel one",
     "'Sigma_Delta / V_Delta follow the non-singlet kernels for the same coupling steps' is decided against the scalar "
     "mid-point product on those steps (rounding level); their distance to the closed-form NS kernel is the "
     "discretisation error of the iterated solution, which C12 / C09 bound (a flat h^2 bound was tried here and is "
@@ -81,7 +87,7 @@ def strategy_kernel(tier):
 
     @st.composite
     def build(draw):
-        sector = draw(st.sampled_from(("singlet", "valence", "ns", "singlet")))
+        sector = draw(st.sampled_from(("singlet", "valence", "ns", "singlet", "real", "singlet", "valence", "ns")))
         n = draw(st.sampled_from((2, 3, 4, 1, 2, 3, 4)))
         m = draw(st.sampled_from((1, 2)))
         a0 = draw(S.log_floats(0.002, 0.05))
@@ -96,6 +102,13 @@ def strategy_kernel(tier):
             "lists": draw(st.sampled_from(("geom", "jitter"))), "valence_generic": draw(st.booleans()),
             "lnmu": [draw(S.floats(0.0, 6.0)), draw(S.floats(0.0, 6.0))], "running": draw(st.booleans()),
         }
+        if sector == "real":
+            # real ekore anomalous dimensions at a Mellin point of the inversion contour (small |N| for x -> 1 ... larger for small x)
+            case.update(
+                steps=draw(st.sampled_from((1, 2, 3))), lists="geom", u=draw(S.floats(0.5, 0.95)), lnx=draw(S.floats(math.log(1e-3), math.log(0.9))),
+                singlet_path=draw(st.booleans()), fhmruvv=draw(st.booleans()),
+                n3lo=[draw(st.integers(0, 2)) for _ in range(7)] if n == 4 and draw(st.booleans()) else [0] * 7,
+            )
         # Hypothesis favours simple values (measured: 18 % of drawn seeds are 0, half of the couplings sit on the lower
         # bound): mix the drawn seed with a hash of all other fields so that towers differ whenever anything differs
         case["seed"] = (draw(st.integers(0, 2**31 - 1)) ^ int(jhash(case), 16)) % 2**31
@@ -151,6 +164,88 @@ def _close(got, want, tol):
     return float(np.max(np.abs(got - want))) / scale, scale
 
 
+def check_real(case):
+    """Kernel level with the *real* ekore anomalous dimensions: at a_em = 0 every channel of the unified-basis kernels must
+    coincide with the QCD kernel fed with the QCD anomalous dimensions of the corresponding sector."""
+    import ekore.anomalous_dimensions.unpolarized.space_like as ad_us
+    from eko import beta as eko_beta
+    from eko import mellin
+    from eko.kernels import EvoMethods
+    from eko.kernels import non_singlet as ns
+    from eko.kernels import non_singlet_qed as qed_ns
+    from eko.kernels import singlet as s
+    from eko.kernels import singlet_qed as qed_s
+    from eko.kernels import valence_qed as qed_v
+    from vf.refs import qs_qed0 as Q
+
+    res = CaseResult()
+    order, nf, k = tuple(case["order"]), case["nf"], case["steps"]
+    n, m = order
+    a0, a1 = case["a"]
+    var, fh = tuple(case["n3lo"]), case["fhmruvv"]
+    # as in the runner: singlet quantities on the singlet contour (offset 1, away from the N = 1 pole), the others on
+    # the contour the case selects
+    N = complex(mellin.Path(case["u"], case["lnx"], True).n)
+    N_ns = complex(mellin.Path(case["u"], case["lnx"], case["singlet_path"]).n)
+    res.classes = ["K/sector=real", f"K/n={n}", f"K/m={m}", f"K/real/|N|{'<2' if abs(N) < 2 else ('<5' if abs(N) < 5 else '>=5')}", f"K/real/fhmruvv={fh}"]
+    res.nontrivial = bool(n >= 2)
+    al, ah = Q.coupling_lists(a0, a1, k, "geom", None)
+    a_half = np.zeros((k, 2))
+    a_half[:, 0] = ah
+    beta_e = [float(eko_beta.beta_qcd((2 + i, 0), nf)) for i in range(n)]
+    method = EvoMethods.ITERATE_EXACT
+    qcd_order = (n, 0)
+    what = f"order {list(order)}, nf={nf}, N={N:.4f} (ns/valence: {N_ns:.4f}), steps {k}, a=({a0},{a1}), fhmruvv={fh}, n3lo_ad_variation={list(var)}"
+    try:
+        g_s = ad_us.gamma_singlet_qed(order, N, nf, var, fh)
+        g_v = ad_us.gamma_valence_qed(order, N_ns, nf, var, fh)
+        qcd_s = np.array(ad_us.gamma_singlet(qcd_order, N, nf, var, fh))
+        sd_tower = np.array(ad_us.gamma_ns(qcd_order, 10101, N, nf, var, fh))
+        qcd_ns = {name: np.array(ad_us.gamma_ns(qcd_order, mode, N_ns, nf, var, fh)) for name, mode in (("ns+", 10101), ("ns-", 10201), ("nsV", 10200))}
+        K4 = np.asarray(qed_s.dispatcher(order, method, g_s, al, a_half, nf, k, (10, m)))
+        K2 = np.asarray(qed_v.dispatcher(order, method, g_v, al, a_half, nf, k, (10, m)))
+        ref_s = s.eko_iterate(qcd_s, a1, a0, beta_e, qcd_order, k)
+        ns_q = {}
+        for mode, name in ((10102, "ns+"), (10103, "ns+"), (10202, "ns-"), (10203, "ns-")):
+            g = ad_us.gamma_ns_qed(order, mode, N_ns, nf, var, fh)
+            got = complex(qed_ns.dispatcher(order, method, g, al, np.zeros(k), case["running"], nf, k, 10.0, 100.0))
+            ns_q[mode] = (name, got, complex(ns.dispatcher(qcd_order, method, qcd_ns[name].copy(), a1, a0, nf)))
+    except NotImplementedError as e:  # e.g. nf = 6 is not available at N3LO: documented refusal, outside the domain
+        return CaseResult(discarded=f"K/real/refused:{str(e)[:40]}")
+    except Exception as e:  # noqa: BLE001 - repo code on in-domain input
+        res.fail(exc_bucket(f"{ID}/K/real/call", e), f"{e!r}; {what}")
+        return res
+    cond = Q.eig_condition(Q.step_generators(qcd_s, al, ah, beta_e)[0])
+    if cond > COND_MAX:
+        return CaseResult(discarded="K/ill-conditioned eigenvectors (outside the closed-form exponential's domain)")
+    tol = K_TOL * max(cond, 1.0) * k * 10
+    scale = max(float(np.max(np.abs(ref_s))), 1.0)
+    block = np.array([[K4[2, 2], K4[2, 0]], [K4[0, 2], K4[0, 0]]])
+    d = float(np.max(np.abs(block - ref_s))) / scale
+    if not d <= tol:
+        res.fail(f"{ID}/K/real/singlet-block-vs-qcd", f"(g,Sigma) block of the QED singlet kernel at a_em=0 vs QCD singlet kernel: rel {d:.2e} > {tol:.1e}; {what}")
+    rest = K4.copy()
+    for i, j in ((0, 0), (0, 2), (2, 0), (2, 2), (1, 1), (3, 3)):
+        rest[i, j] = 0.0
+    if not (abs(K4[1, 1] - 1.0) <= tol and np.max(np.abs(rest)) <= tol * scale):
+        res.fail(f"{ID}/K/real/photon-or-leak", f"photon entry {K4[1, 1]!r}, largest forbidden entry {np.max(np.abs(rest)):.2e} at a_em=0; {what}")
+    # the Delta / valence channels: scalar mid-point products of the QCD non-singlet towers on the same steps
+    chans = [("Sigma_Delta", K4[3, 3], "ns+", sd_tower), ("V", K2[0, 0], "nsV", qcd_ns["nsV"]), ("V_Delta", K2[1, 1], "ns-", qcd_ns["ns-"])]
+    for name, got, tower, coeffs in chans:
+        want = Q.midpoint_product(coeffs, al, ah, beta_e)
+        if not abs(got - want) <= tol * max(abs(want), 1.0):
+            res.fail(
+                f"{ID}/K/real/{name}-vs-qcd-{tower}",
+                f"{name} entry {got!r} at a_em=0 vs the QCD {tower} kernel on the same steps {want!r}: rel {abs(got - want) / abs(want):.2e} > {tol:.1e}; {what}",
+            )
+    if not max(abs(K2[0, 1]), abs(K2[1, 0])) <= tol * max(float(np.max(np.abs(K2))), 1.0):
+        res.fail(f"{ID}/K/real/photon-or-leak", f"valence off-diagonal {max(abs(K2[0, 1]), abs(K2[1, 0])):.2e} at a_em=0; {what}")
+    for mode, (name, got, want) in ns_q.items():
+        if not abs(got - want) <= NS_TOL * abs(want):
+            res.fail(f"{ID}/K/real/ns-qed-vs-qcd-{name}", f"non_singlet_qed mode {mode} at a_em=0 {got!r} vs QCD {name} kernel {want!r}: rel {abs(got - want) / abs(want):.2e}; {what}")
+    return res
+
+
 def check_kernel(case):
     from eko import beta as eko_beta
     from eko.kernels import EvoMethods
@@ -161,6 +256,8 @@ def check_kernel(case):
     from eko.kernels import valence_qed as qed_v
     from vf.refs import qs_qed0 as Q
 
+    if case["sector"] == "real":
+        return check_real(case)
     res = CaseResult()
     sector, order, nf, k = case["sector"], case["order"], case["nf"], case["steps"]
     n, m = order
